@@ -5,7 +5,7 @@ EXTENDS Operators, Json, SequencesExt
 VARIABLE st
 Auths == {{p} : p \in Accts} \cup {{}}
 Acts(s) ==
-    {[name |-> n, acct |-> "a", auth |-> au] : n \in {"AddOperator", "RemoveOperator"}, au \in Auths}
+    {[name |-> n, acct |-> x, auth |-> au] : n \in {"AddOperator", "RemoveOperator"}, x \in {"a", "owner0"}, au \in Auths}
     \cup {[name |-> "TransferOwnership", new |-> n, auth |-> au] : n \in {"owner0", "bob", "a"}, au \in Auths}
 Init == st = [ops |-> [x \in Accts |-> "never"], owner |-> "owner0"]
 Next == \E a \in Acts(st) : st' = Apply(st, a).post
